@@ -19,11 +19,14 @@ def _model_command_args(E, st, node, recv, args, kwargs):
 
 def contract():
     def quoted_iff_needed(E, st, events):
-        old = st.ghost["_iter_entry_env"]["cmdline"]
-        new = st.env["cmdline"]
-        arg = st.env["arg"]
-        if not (is_z3(old) and is_z3(new) and is_z3(arg)):
+        # the argument of this iteration and the accumulator, whatever the locals are called: the loop element, and the
+        # one string-valued local the body changed
+        entry = st.ghost["_iter_entry_env"]
+        arg = st.ghost["_iter_elem"]
+        changed = [n for n, v in st.env.items() if n in entry and is_z3(v) and is_z3(entry[n]) and v.sort() == z3.StringSort() and not v.eq(entry[n])]
+        if len(changed) != 1 or not is_z3(arg):
             return False
+        old, new = entry[changed[0]], st.env[changed[0]]
         needs = z3.Or(arg == z3.StringVal(""), *[z3.Contains(arg, z3.StringVal(c)) for c in SPECIAL])
         q = [e for e in events if e.name == "shlex.quote" and not e.raised]
         if len(q) > 1:
